@@ -113,6 +113,17 @@ class SeekableFeed(io.RawIOBase):
         return out
 
 
+def _feed_readinto(self, b):
+    data = self.read(len(b))
+    if data is None:
+        return None
+    b[:len(data)] = data
+    return len(data)
+
+
+SeekableFeed.readinto = _feed_readinto
+
+
 class PipeFeed(io.RawIOBase):
     """Non-seekable (goes through the library's CachingStreamWrapper); None while open and empty, b'' after
     close; short reads when fewer octets are queued than asked for."""
@@ -260,3 +271,22 @@ class ClockPipe(_Clocked, PipeFeed):
     def read(self, n=-1):
         self._tick()
         return PipeFeed.read(self, n)
+
+
+class BufferedFeed(io.BufferedReader):
+    """io.BufferedReader over a seekable non-blocking raw stream that is fed over time (what an application gets from
+    open(..., 'rb') on a growing file put into non-blocking mode, or builds around its own raw stream)."""
+    def __init__(self, buffer_size=io.DEFAULT_BUFFER_SIZE):
+        self.rawfeed = SeekableFeed()
+        io.BufferedReader.__init__(self, self.rawfeed, buffer_size)
+        self.c = self.rawfeed.c
+
+    def feed_bytes(self, data):
+        self.rawfeed.feed_bytes(data)
+
+    def finish(self):
+        self.rawfeed.finish()
+
+    @property
+    def eof(self):
+        return self.rawfeed.eof
